@@ -246,11 +246,12 @@ theorem afterLoop_nil (h : NoAugDev reg) : (afterLoop reg opts plug).2 = pstate0
 
 theorem leftoverPass_nil (h : NoAugDev reg) : leftoverPass reg opts plug = (fixAll (pstate0 reg opts plug), 0) := by
   unfold leftoverPass
-  rw [afterLoop_nil reg opts plug h]
+  rw [afterLoop_nil reg opts plug h, ← Array.foldl_toList]
   refine foldl_inv (fun acc : PState × Nat => acc = (fixAll (pstate0 reg opts plug), 0)) _ _ _ rfl ?_
   rintro acc id _ rfl
   dsimp only
   rw [augmentTree_nil reg id true _ (fixAll_nil _ (pstate0_nil reg opts plug h))]
+  rfl
 
 /-- Without augments the state before the deviations is the conversion result with `fixChoice`
 applied to every tree. -/
@@ -319,6 +320,12 @@ theorem processAll_noAugDev (h : NoAugDev reg)
   refine ⟨?_, ?_⟩
   · rw [hd.2, he]; exact canonErrs_nil
   · rw [hd.1, hp]; rfl
+
+/-- Under `NoAugDev` the result is clean exactly when the first two stages are. -/
+theorem processAll_noAugDev_clean_iff (h : NoAugDev reg) :
+    (processAll reg opts plug).errors = [] ↔
+      stage1Errs reg plug = [] ∧ forestErrs (forest0 reg opts plug) = [] :=
+  ⟨processAll_clean_stages reg opts plug, fun ⟨h1, h2⟩ => (processAll_noAugDev reg opts plug h h1 h2).1⟩
 
 end Stages
 
